@@ -8,12 +8,17 @@ EXPLANATION = (
     "parser.set_defaults, and only then the command line is parsed - precedence by construction. Z2: the OPTIONS table "
     "(extracted from the source): every negative (--no-x / store_false) option shares its dest with a positive option; "
     "both config readers (ini and pyproject.toml) have a branch for every action kind that occurs in the config-file "
-    "schema, rename tags to config_tags and resolve against dirname(path). Z6: format_outfiles_coupling evaluated "
+    "schema. Z9: both readers evaluated on a config token with one option of every action kind: each value lands under "
+    "its destination (file tags under config_tags), typed by its action, nothing else is stored and paths are resolved once "
+    "against dirname(path). Z6: format_outfiles_coupling evaluated "
     "abstractly with os.path.join/normpath as markers: given and derived outfiles and paths are all resolved against "
     "the config file's directory. Z7: load_configuration evaluated with the class-level (shared) userdata dict in the "
     "defaults and config files that carry userdata: no shared object is mutated; make_defaults works on a copy. Z4: "
     "setup_userdata wraps the file data and then applies the command-line defines; parse_user_define splits at the "
-    "first '=' and maps a bare name to 'true'. Z5: UserData.getas evaluated for missing / right-typed / textual values "
+    "first '=' and maps a bare name to 'true'; all documented -D schemas (quoted pair, quoted value, padded, '=' inside the "
+    "value, empty value) constant-folded on 14 texts. Z8: for the eight --x/--no-x pairs whose help calls one side 'the "
+    "default behaviour' the effective default (Configuration.defaults, else the implicit default of the first option of that "
+    "destination in table order, as argparse resolves it) is that side. Z5: UserData.getas evaluated for missing / right-typed / textual values "
     "with a converter that succeeds or raises: default returned untouched (converter not called), typed value as is, "
     "text converted, conversion errors propagate.")
 NOT_DECIDED = ("argparse's own resolution of defaults and option polarity, config-file discovery on disk, quote stripping "
@@ -27,5 +32,8 @@ def run(chk, ix, tier):
     rules_config.check_outfiles_coupling(chk, ix)
     rules_config.check_defaults_not_mutated(chk, ix)
     rules_config.check_userdata(chk, ix)
-    for r, n in (("Z1", 1), ("Z2", 8), ("Z4", 2), ("Z5", 4), ("Z6", 3), ("Z7", 2)):
+    rules_config.check_readers_by_evaluation(chk, ix)
+    rules_config.check_user_define_concrete(chk, ix)
+    rules_config.check_documented_defaults(chk, ix)
+    for r, n in (("Z1", 1), ("Z2", 6), ("Z4", 16), ("Z5", 4), ("Z6", 3), ("Z7", 2), ("Z9", 14), ("Z8", 6)):
         chk.require_instances(r, n)
